@@ -381,7 +381,7 @@ void roundtrip_case(RT& c, const string& data, bool with_mask, const vector<bool
       continue;
     }
     if (p.data != data) {
-      r.fail(string("format_data_string:") + form + "-form-not-lossless", [&] { return ctx() + " == " + vf::show(text) + ", which parses back to " + hexs(p.data) + vf::fmt(" (%zu bytes instead of %zu)", p.data.size(), data.size()); });
+      r.fail(string("format_data_string:") + form + "-form-not-lossless", [&] { return ctx() + " == " + vf::show(text) + ", which parses back to " + hexs(p.data) + vf::fmt(" (%zu bytes; the input has %zu)", p.data.size(), data.size()); });
       continue;
     }
     if (with_mask) {
